@@ -64,7 +64,7 @@ func checkReceiver(p *Prog, r *Report, fn *ssa.Function) {
 		return
 	}
 	L := heads[0]
-	fp := Paths(loopFn)
+	fp := PathsInl(loopFn)
 	r.Count("segments", len(fp.Segs))
 
 	// R1: stateless loop — no phi at the header, no store into captured cells or through pointers
